@@ -3,6 +3,7 @@ package main
 
 import (
 	"fmt"
+	"go/ast"
 	"go/token"
 	"go/types"
 	"sort"
@@ -254,6 +255,80 @@ func ruleLastBlock(c *Ctx, rule string, targets [][2]string) {
 				for _, bf := range branchesAt(b) {
 					if cellOf(bf.cond.X) && cellOf(bf.cond.Y) {
 						bad = bf.cond
+					}
+				}
+			}
+		}
+		// the emission may be a private helper that is handed the coordinates (appendSegment(aln, i, maxI, j, maxJ,
+		// score)): then the coordinates are the arguments that the helper stores into the pair's nested fields
+		for _, b := range fn.Blocks {
+			if inLoop(b) {
+				continue
+			}
+			for _, ins := range b.Instrs {
+				call, ok := ins.(*ssa.Call)
+				if !ok {
+					continue
+				}
+				g := call.Call.StaticCallee()
+				if g == nil || g.Pkg != fn.Pkg || g.Blocks == nil || ast.IsExported(g.Name()) {
+					continue
+				}
+				coordParams := map[*ssa.Parameter]bool{}
+				for _, gb := range g.Blocks {
+					for _, gi := range gb.Instrs {
+						al, ok := gi.(*ssa.Alloc)
+						if !ok || !strings.HasSuffix(typeString(al.Type()), "featPair") {
+							continue
+						}
+						for _, gi2 := range gb.Instrs {
+							st, ok := gi2.(*ssa.Store)
+							if !ok || addrRoot(st.Addr) != ssa.Value(al) {
+								continue
+							}
+							fa, ok := st.Addr.(*ssa.FieldAddr)
+							if !ok {
+								continue
+							}
+							if _, nested := fa.X.(*ssa.FieldAddr); !nested {
+								continue
+							}
+							if prm, ok := st.Val.(*ssa.Parameter); ok {
+								coordParams[prm] = true
+							}
+						}
+					}
+				}
+				if len(coordParams) < 4 {
+					continue
+				}
+				vals := map[ssa.Value]bool{}
+				for i, prm := range g.Params {
+					if coordParams[prm] && i < len(call.Call.Args) {
+						if _, isK := call.Call.Args[i].(*ssa.Const); !isK {
+							vals[call.Call.Args[i]] = true
+						}
+					}
+				}
+				if len(vals) < 4 {
+					continue
+				}
+				n++
+				for _, bf := range branchesAt(b) {
+					if vals[bf.cond.X] && vals[bf.cond.Y] {
+						bad = bf.cond
+					}
+				}
+				// and the helper itself does not drop a block by its coordinates
+				for _, gb := range g.Blocks {
+					if ifi, ok := gb.Instrs[len(gb.Instrs)-1].(*ssa.If); ok {
+						if bo, ok := ifi.Cond.(*ssa.BinOp); ok {
+							px, okx := bo.X.(*ssa.Parameter)
+							py, oky := bo.Y.(*ssa.Parameter)
+							if okx && oky && coordParams[px] && coordParams[py] {
+								bad = bo
+							}
+						}
 					}
 				}
 			}
